@@ -18,6 +18,7 @@ import hashlib, itertools, json
 from .. import common, build, conf as C
 
 ROOT = ('G', 'r')
+HOOK_UNREG = ('G', 'u')      # unregistered entries get a hook after every load, as the modules do for the entries of their sections
 REGS = {
     'a:str=d': (C.reg_string('a', 'd'), [('a', 's', 'd', 0)]),
     'a:str=NULL': (C.reg_string('a', None), [('a', 's', None, 0)]),
@@ -161,7 +162,7 @@ def enabled_regs(regset):
 
 
 def hist_events(hist):
-    return [ROOT] + [REGS[e[1]][0] if e[0] == 'reg' else ('L', _G['files'][e[1]][1]) for e in hist]
+    return [ROOT, HOOK_UNREG] + [REGS[e[1]][0] if e[0] == 'reg' else ('L', _G['files'][e[1]][1]) for e in hist]
 
 
 def _fresh(srv, item):
